@@ -24,7 +24,8 @@ from vlib.pat import Pat, returned
 from vlib.front import unparse, dotted, const_value, AnchorMissing
 
 MG = 'phylib/io/merge.py'
-FLOOR = 14
+FLOOR = 8          # decided obligations below this = the analysis lost its footing (exit 2); clean tree: 23
+RULES = ('C11.A1', 'C11.F1', 'C11.S1')          # every obligation group must report (holds / violated / undecided): a group that vanishes silently is an analysis error
 EXPLANATION = ('proto/sym walks of the Merger methods with the helper calls as uninterpreted pure terms: what is saved under each name is '
                'compared with concat(files in input order)[spike_order]; the loop body of write_spike_clusters is walked from a symbolic '
                'accumulator state and the recurrence / shift / recorded offset / probe-table block compared as normal forms; fx over '
